@@ -222,8 +222,15 @@ def run_shard(args):
                     if rng.random() < 0.35:
                         s, r = w.call("delete", "DELETE", w.url(colpath, name), [], None, record=False)
                         if W.World.success(s.eff):
-                            live.pop(name)
+                            body_was = live.pop(name)
                             res.count("writes_between_queries")
+                            if rng.random() < 0.5:
+                                # ... and the very same bytes come back under the same name (same blob id, same etag)
+                                s, r = w.call("put", "PUT", w.url(colpath, name), [("Content-Type", "text/calendar")], body_was, record=False)
+                                if W.World.success(s.eff):
+                                    live[name] = body_was
+                                    res.count("writes_between_queries")
+                                    res.count("deleted_members_put_back_identically")
                     else:
                         # overwrite a member with the properties of a *different* table row (same
                         # name and UID): every value an index may have cached for it changes
@@ -315,7 +322,7 @@ def check(tier, seed, t0):
     past = max(1, c.get("queries_past_threshold", 0))
     guards = [("queries compared with the cold naive evaluation", c.get("comparisons", 0), 1500 * k), ("queries answered from the index (recording wrapper)", c.get("queries_answered_from_index", 0), 500 * k),
               ("writes between queries", c.get("writes_between_queries", 0), 60 * k), ("overwrites that change indexed values", c.get("overwrites_changing_indexed_values", 0), 30 * k),
-              ("index resets", c.get("index_resets", 0), 10)]
+              ("index resets", c.get("index_resets", 0), 10), ("members deleted and put back byte-identically", c.get("deleted_members_put_back_identically", 0), 5 * k)]
     return common.finish(PROP, tier, seed, "exploration", merged, failures, RULE, t0, guards=guards,
                          assumptions=["the naive evaluation of the same code on a fresh store object is the reference (RFC conformance is C11's question)", "queries in aio shards cannot be attributed to a path (no wrapper in the server process); they use thresholds 0/1"])
 
